@@ -161,11 +161,27 @@ type Grant struct {
 
 // AuthorizeCode runs the authorization endpoint for response_type=code and returns the code.
 func (w *World) AuthorizeCode(client string, scopes []string, extra url.Values) (string, fosite.AuthorizeResponder, error) {
+	// The client asks for one scope more than the resource owner grants ("mail" is registered for the
+	// world's clients): requested and granted scopes differ in every grant made through this helper, so a
+	// confusion of the two anywhere downstream becomes visible.
+	requested := strings.Join(scopes, " ")
+	partial := true
+	for _, s := range scopes {
+		if s == "mail" {
+			partial = false
+		}
+	}
+	if _, overridden := extra["scope"]; overridden {
+		partial = false
+	}
+	if partial {
+		requested = strings.TrimSpace(requested + " mail")
+	}
 	form := url.Values{
 		"client_id":     {client},
 		"response_type": {"code"},
 		"redirect_uri":  {"https://" + client + ".example/cb"},
-		"scope":         {strings.Join(scopes, " ")},
+		"scope":         {requested},
 		"state":         {"state-0123456789"},
 	}
 	for k, v := range extra {
@@ -176,6 +192,9 @@ func (w *World) AuthorizeCode(client string, scopes []string, extra url.Values) 
 		return "", nil, err
 	}
 	for _, s := range ar.GetRequestedScopes() {
+		if partial && s == "mail" {
+			continue // requested, not granted
+		}
 		ar.GrantScope(s)
 	}
 	resp, err := w.Provider.NewAuthorizeResponse(w.Ctx, ar, NewSession("peter"))
